@@ -3,8 +3,8 @@ SPEC = dict(
     title="Snapshot store plus log always rebuilds the applied state",
     pkg="./store", files=["store/c04_verif_test.go", "store/c03c04c22_common_verif_test.go"],
     case_preamble="Open Scope N_scope.\n",
-    rule="26 hand-picked histories (busy checkpoints on the incremental path with segments of earlier unpersisted attempts staged; a staged WAL left by a skipped/failed persist, then each kind of base change, then incrementals, restart, reap; failing snapshot attempts between a load and the next successful snapshot; chains 'full + 0..3 un-reaped incrementals' installed from a real sender store, then the receiver's own writes, incrementals, reaps, restarts) "
-         "+ 12 (quick) / 1500 (thorough) random histories of <= 12 / <= 30 operations over write batches (1-3 or 6-15 rows of ~1.5 KiB, deletes), snapshots with "
+    rule="38 hand-picked histories (a load applied while a full / incremental snapshot is in flight between fsmSnapshot and its persist, then skipped / blocked / failed attempts and further snapshots; busy checkpoints on the incremental path with segments of earlier unpersisted attempts staged; a staged WAL left by a skipped/failed persist, then each kind of base change, then incrementals, restart, reap; failing snapshot attempts between a load and the next successful snapshot; chains 'full + 0..3 un-reaped incrementals' installed from a real sender store, then the receiver's own writes, incrementals, reaps, restarts) "
+         "+ 8 (quick) / 1500 (thorough) random histories of <= 12 / <= 30 operations over write batches (1-3 or 6-15 rows of ~1.5 KiB, deletes), snapshots in two steps as raft takes them (fsmSnapshot; then, possibly after writes / loads / reaps applied meanwhile, the persist) with "
          "persist outcome ok / not invoked / failed before / failed after the staging dir is consumed, or with the checkpoint (full or incremental) made busy by a reader stalled before the batch written just ahead of the attempt, loads (WAL and DELETE mode files), boots, follower "
          "installs of a sender's chain (full + 0..3 incrementals, streamed from the sender's snapshot store), reaps, restarts; a history is non-trivial when a non-ok persist leaves a staged WAL, a change of base (full snapshot, load, boot, install) "
          "follows, and an incremental snapshot succeeds after that; distinct by the JSON of the history",
@@ -12,9 +12,9 @@ SPEC = dict(
     trusted=["SQLite checkpoint / WAL replay = override of the cells a WAL names (page level and compaction are C05/C06); raft log durability and replay order are hashicorp/raft's",
              "the follower install is performed on a single node with raft's own call sequence (Create, stream from a real sender store's Open, sink.Close, FSM.Restore)",
              "the driver's projection of raft indices to 'number of history entries covered'"],
-    assumptions=["no external modification of the database file (the dbModifiedTime guard is implied by FULL_NEEDED in every history of the quantifier, see docs/C22.md)", "automatic reaping and snapshot-on-close are switched off in the driver; reaps and snapshots happen where the history says"],
-    level_text="C04_chain_invariant, C04_rebuild and C04_blocked_attempt_keeps_staging hold for every operation sequence of any length (induction over the history, no bound); C04_unfixed_refuted exhibits the "
-               "violating history of the code before the repair. The model's step function is run on every driver history and compared after every step with the real Store.",
+    assumptions=["no external modification of the database file (the dbModifiedTime guard is model state; with repair 2 it is again implied by FULL_NEEDED, see docs/C04.md)", "raft takes one snapshot at a time; a boot, an install or a blocked attempt while a snapshot of the node is in flight is refused by the model (code 8) and not generated", "automatic reaping and snapshot-on-close are switched off in the driver; reaps and snapshots happen where the history says"],
+    level_text="C04_chain_invariant, C04_rebuild and C04_blocked_attempt_keeps_staging hold for every operation sequence of any length (induction over the history, no bound); C04_unfixed_refuted and C04_inflight_unfixed_refuted exhibit the "
+               "violating histories of the code before each of the two repairs. The model's step function is run on every driver history and compared after every step with the real Store.",
     level_note="Model = fsmSnapshot/OnRelease/fsmRestore/fsmApply(LOAD)/ReadFrom/Open + Sink.Close + ResolveFiles + Restore + reap, at cell level; tie = per-step differential run "
                "(staged count, catalog, order of the WAL files ResolveFiles returns, FULL_NEEDED, restored newest snapshot, rebuilt database, live database) + Go oracle replaying the log suffix with plain SQL.",
     technique="Coq inductive invariant over all histories + per-step model/implementation differential run + independent rebuild oracle",
